@@ -146,7 +146,16 @@ func (con *Connection) Read(b []byte) (int, error) {
 		return con.DecryptedRead(b)
 	}
 
-	return con.connection.Read(b)
+	n, err := con.connection.Read(b)
+	if n > 0 && con.getDecrypter() != nil {
+		// The session was switched to the encrypted one (by the pair verify handler)
+		// while this read was waiting for data. A controller sends encrypted data as
+		// soon as it received the pair verify response – the bytes are encrypted.
+		con.received = append(con.received, b[:n]...)
+		return con.DecryptedRead(b)
+	}
+
+	return n, err
 }
 
 // Close closes the connection and deletes the related session from the context.
